@@ -140,7 +140,7 @@ func runAll(root string) int {
 		return 2
 	}
 	var p2 *Prog
-	if p.Inlined > 0 {
+	if p.Inlined > 0 && os.Getenv("SLUGCHECK_ONEVIEW") == "" {
 		p2, err = loadProgView(root, defaultConfig, false)
 		if err != nil {
 			p2 = nil
@@ -237,7 +237,7 @@ func analyse(prop string, def *propDef, tier, root string, bc BuildConfig) (c *C
 		return nil, err
 	}
 	c, err = runOn(p)
-	if err != nil || p.Inlined == 0 {
+	if err != nil || p.Inlined == 0 || os.Getenv("SLUGCHECK_ONEVIEW") != "" {
 		return c, err
 	}
 	p2, err := loadProgView(root, bc, false)
